@@ -173,6 +173,10 @@ EvalField(C, node, f, path) ==
       \* selection was reached through (canonicalised to "f:" by the harness)
       p == path \o (IF "FragPathSegment" \in C.dv THEN [i \in 1..f.via |-> "f:"] ELSE <<>>) \o <<PathKey(Key(f))>>
   IN IF f.name = "__typename" THEN Res(StrV(tn), <<>>, <<>>)
+     \* __schema and __type are fields of the query root type only (whatever that type is called): anywhere else they
+     \* are undefined fields (C10).  What they answer on the root is Introspect.tla's subject (C17), not generated here.
+     ELSE IF f.name \in {"__schema", "__type"} /\ tn # C.U.nodeType[C.U.roots["query"]]
+     THEN Res(V("absent", 0), <<ErrRec(p, "undefined_field", f.name)>>, <<>>)
      ELSE IF ~HasField(C.U, tn, f.name)
      THEN Res(V("absent", 0), <<ErrRec(p, "undefined_field", f.name)>>, <<>>)       \* C10: rejected, not resolved
      ELSE LET fd == FieldDef(C.U, tn, f.name)
